@@ -3,7 +3,9 @@
    modelled byte exactly on the stream. Pack builds an http.Header and lets net/http write it:
    the sequence of Set/Add calls is concrete, what net/http writes for it (canonical keys,
    sorted, values sanitised) is the section variable [hdr_write] giving the header lines;
-   url.Parse is [url_parse]; the JSON form of a status (goutil/status with encoding/json) is
+   url.Parse is [url_parse] and URL.EscapedPath of the parsed service method is [url_esc]
+   (packRequest writes the ESCAPED path into the request line - the repaired code; before, it
+   wrote the decoded u.Path raw); the JSON form of a status (goutil/status with encoding/json) is
    [st_json] / [st_unjson]; transfer filters are looked up by name ([by_name]) and only gzip
    filters are accepted ([hf_gzip]). Contracts are stated where they are used. *)
 From Coq Require Import Strings.String Strings.Byte.
@@ -121,6 +123,8 @@ Record hstate := mkHs {
 Section Http.
   Variable hdr_write : list hop -> list (bytes * bytes).
   Variable url_parse : bytes -> option (bytes * bytes * bytes).   (* path, raw query, host *)
+  (* url.Parse(s).EscapedPath(): the escaped form of the path of the URL parsed from s *)
+  Variable url_esc : bytes -> bytes.
   Variable st_json : status -> bytes.
   Variable st_unjson : bytes -> res status.
   Variable by_name : bytes -> option hfilter.
@@ -178,7 +182,8 @@ Section Http.
           | None => Err
           | Some (path, rawq, host) =>
               let ops := ops_request ops0 m host (blen body) in
-              let target := match rawq with [] => path | _ => path ++ "?"%byte :: rawq end in
+              let epath := url_esc (m_method m) in
+              let target := match rawq with [] => epath | _ => epath ++ "?"%byte :: rawq end in
               let f := str "POST " ++ target ++ str " HTTP/1.1" ++ crlf
                        ++ ser_lines (hdr_write ops) ++ crlf ++ body in
               Ok (f, final_size lim (blen f))
